@@ -10,6 +10,8 @@
   bounded by `lateral_spec_partial` below, and checked on the implementation by a direct law.
 -/
 import Csvq.Lemmas.Rel
+import Csvq.Gen.RelFacts
+import Csvq.Ref.RelFacts
 namespace Csvq.C03
 open Csvq Csvq.Rel
 
@@ -625,6 +627,150 @@ theorem recursive_working_view_first (ctes temps : List String) (r n : String) (
 /-- a condition without open references evaluates, with the short-circuits of eval.go, to the total value -/
 theorem lazy_eval_agrees (lw : Nat) (r : Row) (c : CondE) (h : condPure c = true) :
     evalCondE lw r c = .ok (evalCond lw r c) := evalCondE_pure lw r c h
+
+/-! ## the model against the source as it stands (lean/Csvq/Gen/RelFacts.lean, regenerated on every run)
+
+  extract/relfacts translates `Header.FieldIndex` (loop body and tail), `InStrSliceWithCaseInsensitive`, the keep
+  tests of `View.filter` / `InnerJoin` / `OuterJoin`, the FULL-join flag update, the operand order of `Merge`, the
+  padding test, the order of the tests in `loadObject` and `CalcMinimumRequired` into Lean, and lists the statements
+  of the functions around them as tokens.  The theorems below say that the hand-written model IS that code. -/
+
+/-- the loop variable `idx` of the Go function: -1 = nothing found yet -/
+def encIdx : Option Nat → Int
+  | none => -1
+  | some k => (k : Int)
+
+theorem gen_fieldIndex_loop (view : Option String) (hv : view ≠ some "") (column : String) (fs : List HField)
+    (i : Nat) (o : Option Nat) :
+    (match runLoop (Gen.fieldIndexBody (viewStr view) column) fs i (encIdx o) with
+      | .ok idx => Gen.fieldIndexPost idx
+      | .error e => .error e) = fieldIndexGo view column fs i o := by
+  induction fs generalizing i o with
+  | nil =>
+    cases o with
+    | none => simp [runLoop, Gen.fieldIndexPost, fieldIndexGo, encIdx]
+    | some k =>
+      simp only [runLoop, Gen.fieldIndexPost, fieldIndexGo, encIdx]
+      have : ¬ ((k : Int) < 0) := by omega
+      simp [this]
+  | cons f fs ih =>
+    have ihs := ih (i + 1) (some i)
+    simp only [encIdx] at ihs
+    have hpos : ∀ k : Nat, (-1 : Int) < (k : Int) := fun k => by omega
+    have hpost : ∀ k : Nat, Gen.fieldIndexPost (k : Int) = .ok k := fun k => by
+      have : ¬ ((k : Int) < 0) := by omega
+      simp [Gen.fieldIndexPost, this]
+    cases view with
+    | none =>
+      have ihn := ih (i + 1)
+      simp only [viewStr] at ihs ihn
+      simp only [runLoop, Gen.fieldIndexBody, viewStr, fieldIndexGo, fieldMatches, joinWins, colEq, Gen.inStrSliceCI,
+        Option.isNone_none, Bool.true_and]
+      cases hE : eqFold (trimSpace f.name) column <;> cases hJ : f.isJoin <;>
+        cases hA : f.aliases.any (fun a => eqFold column a) <;> cases o <;>
+        simp [encIdx, hpos] <;>
+        first | exact ihs | exact ihn none | exact hpost _ | exact ihn (some _)
+    | some v =>
+      have hne : v ≠ "" := fun h => hv (by rw [h])
+      have ihn := ih (i + 1)
+      simp only [viewStr] at ihs ihn
+      simp only [runLoop, Gen.fieldIndexBody, viewStr, fieldIndexGo, fieldMatches, joinWins, colEq,
+        Option.isNone_some, Bool.false_and]
+      cases hV : eqFold f.view v <;> cases hE : eqFold (trimSpace f.name) column <;> cases o <;>
+        simp [encIdx, hne, hpos] <;>
+        first | exact ihs | exact ihn none | exact hpost _ | exact ihn (some _)
+
+/-- `Header.FieldIndex` as it stands in the source IS the model's `fieldIndex`, for all headers and references -/
+theorem gen_fieldIndex_eq_model (h : List HField) (view : Option String) (name : String) (hv : view ≠ some "") :
+    fieldIndexBy Gen.fieldIndexBody Gen.fieldIndexPost h (viewStr view) name = fieldIndex h view name := by
+  unfold fieldIndexBy fieldIndex
+  exact gen_fieldIndex_loop view hv (trimSpace name) h 0 none
+
+/-- what stands around the loop (taking `view` / `column` from the reference, `idx := -1`), and the callers
+    `SearchIndex`, `ContainsObject`, `Header.Update`, are the reviewed statements -/
+theorem gen_field_index_frame_eq_ref :
+    Gen.fieldIndexPrelude = Ref.fieldIndexPrelude ∧ Gen.searchIndexBody = Ref.searchIndexBody ∧
+    Gen.containsObjectBody = Ref.containsObjectBody ∧ Gen.headerUpdateBody = Ref.headerUpdateBody :=
+  ⟨rfl, rfl, rfl, rfl⟩
+
+/-- `View.Fix` does to every header field what the reviewed list says … -/
+theorem gen_fix_effects_eq_ref :
+    Gen.fixProjection = Ref.fixProjection ∧ Gen.fixHeaderEffects = Ref.fixHeaderEffects ∧
+    Gen.fixViewResets = Ref.fixViewResets := ⟨rfl, rfl, rfl⟩
+
+/-- … in particular what the model's `fixHeader` does: the join-column flag and the aliases are cleared -/
+theorem gen_fix_clears_join_flag_and_aliases :
+    "hfields[i].IsJoinColumn=false" ∈ Gen.fixHeaderEffects ∧ "hfields[i].Aliases=nil" ∈ Gen.fixHeaderEffects := by decide
+
+/-- the join-column flag is set only by `joinViews` and cleared only by `View.Fix`; aliases grow in `evalColumn` /
+    `AddHeaderField` and are cleared by `Fix` and `Header.Update` -/
+theorem gen_header_flag_writes_eq_ref : Gen.headerFlagWrites = Ref.headerFlagWrites := rfl
+
+/-- the order in which `loadObject` tries the kinds of object IS the model's `tableKind` -/
+theorem gen_table_kind_order_eq_model (recName : Option String) (ctes temps : List String) (n : String) :
+    tableKindBy recName ctes temps n Gen.tableKindOrder = some (tableKind recName ctes temps n) := by
+  simp only [Gen.tableKindOrder, tableKindBy, tableKind]
+  repeat (first | rfl | split)
+
+theorem gen_load_object_eq_ref : Gen.loadObjectBody = Ref.loadObjectBody := rfl
+
+/-- `View.filter`, `InnerJoin`, `OuterJoin` keep a record exactly when the model's `holds` says so -/
+theorem gen_keep_tests_eq_model (c : Cond) (r : Row) :
+    Gen.filterKeeps (c r) = holds c r ∧ Gen.innerKeeps (c r) = holds c r ∧ Gen.outerKeeps (c r) = holds c r := by
+  unfold Gen.filterKeeps Gen.innerKeeps Gen.outerKeeps holds
+  cases c r <;> exact ⟨rfl, rfl, rfl⟩
+
+/-- the per-worker `joinViewMatches[j]` update of `OuterJoin` is the model's `setFlag` -/
+theorem gen_outer_flag_eq_model (dir : Dir) (flag : Bool) : Gen.outerFlagAfter dir flag = setFlag dir flag := by
+  cases dir <;> cases flag <;> rfl
+
+/-- the halves of the merged record: for RIGHT the inner-loop record comes first (the views were swapped) -/
+theorem gen_merge_order_eq_model (dir : Dir) (o j : Row) :
+    mergeRec dir o j = if Gen.outerMergeInnerFirst dir then j ++ o else o ++ j := by
+  cases dir <;> rfl
+
+/-- the outer-loop record is padded exactly when no partner was found, as in the model's `outerWorker` -/
+theorem gen_padding_test_eq_model (matched : Bool) (pad : Row) :
+    (if Gen.outerPads matched then [pad] else []) = (if matched then ([] : List Row) else [pad]) := by
+  cases matched <;> rfl
+
+/-- dispatch join type → function: CROSS → CrossJoin, INNER → InnerJoin(condition), OUTER → OuterJoin(condition, direction);
+    the default join type and the USING / NATURAL merge after the join are the reviewed statements -/
+theorem gen_join_dispatch_eq_ref :
+    Gen.joinDispatch = Ref.joinDispatch ∧ Gen.joinTypeDefault = Ref.joinTypeDefault ∧
+    Gen.joinViewsBody = Ref.joinViewsBody := ⟨rfl, rfl, rfl⟩
+
+/-- `InnerJoin` without a condition is `CrossJoin`; `OuterJoin` and `CrossJoin` return nothing before looking at the
+    records — an outer join without a condition (NATURAL, no common column) still pads -/
+theorem gen_join_shortcuts :
+    Gen.innerJoinShortcuts = Ref.innerJoinShortcuts ∧ Gen.outerJoinShortcuts = [] ∧ Gen.crossJoinShortcuts = [] :=
+  ⟨rfl, rfl, rfl⟩
+
+/-- RIGHT: the views are swapped before the workers start and swapped back before the result is stored -/
+theorem gen_right_swap_eq_ref : Gen.outerRightSwaps = Ref.outerRightSwaps ∧ Gen.outerPadding = Ref.outerPadding :=
+  ⟨rfl, rfl⟩
+
+/-- the nested loops, the worker lists put together in worker order, the FULL-join appendix: the reviewed bodies -/
+theorem gen_join_bodies_eq_ref :
+    Gen.crossJoinBody = Ref.crossJoinBody ∧ Gen.innerJoinBody = Ref.innerJoinBody ∧
+    Gen.outerJoinBody = Ref.outerJoinBody ∧ Gen.filterBody = Ref.filterBody := ⟨rfl, rfl, rfl, rfl⟩
+
+/-- `CalcMinimumRequired` never asks for less than one record per worker (the chunking itself is universally
+    quantified in the theorems above, so its value cannot change a result) -/
+theorem gen_calcMinimumRequired_pos (i1 i2 d : Int) (hd : 1 ≤ d) : 1 ≤ Gen.calcMinimumRequired i1 i2 d := by
+  unfold Gen.calcMinimumRequired
+  simp only
+  split
+  · exact hd
+  · rename_i h1
+    split
+    · exact hd
+    · rename_i h2
+      simp only [Bool.or_eq_true, decide_eq_true_eq, not_or, Int.not_lt] at h1
+      simp only [decide_eq_true_eq, Int.not_le] at h2
+      unfold ceilDivI floorDivI
+      have hq : 1 ≤ i1 * i2 / d := Int.le_ediv_of_mul_le (by omega) (by omega)
+      exact Int.le_ediv_of_mul_le (by omega) (by omega)
 
 /-! ## non-vacuity -/
 
